@@ -583,7 +583,15 @@ def _replay(params, v, lazy):
     manual = np.array([bool(vals.get("manual%d" % i, False))
                        for i in range(N)])
 
+    # a stale cache entry of a polygon that selects every event cannot be
+    # observed; the breach of that invariant does not depend on the polygon's
+    # content, so the witness uses polygons that exclude the events
+    stale_witness = str(v.get("what", "")).startswith(
+        "invariant: polygon cache entry current")
+
     def pbit(pid, ver, i):
+        if stale_witness and pid not in params["poly_cur"]:
+            return False
         return bool(vals.get("poly_%d_v%d_ev%d" % (pid, ver, i), False))
     # model values of uninterpreted polygon bits are not in `values`
     # (only registered vars are); treat missing as False and make the
